@@ -213,6 +213,13 @@ func CutLoop(fn string, loop int, inv interface{}) {}
 // arbitrary state of its loop variables (gosym only; the path ends there).
 func RunLoopBody(fn string, loop int, inv interface{}) {}
 
+// TableLoop declares (gosym only) that the loop run by the next RunLoopBody
+// is a counted loop over a multiplication table: index variable, range
+// [lo, hi), and the number of table cells one iteration stores.  The loop must
+// start at lo, run its body exactly for indices below hi, advance by one, and
+// iteration i must store all cells of entry i and of no other entry.
+func TableLoop(varName string, lo, hi, storesPerIter int) {}
+
 // TaskRangesPartition asserts (gosym only) that the workers of the last
 // fork/join called the kernels on consecutive non-empty ranges covering [0, total).
 func TaskRangesPartition(total int) {}
